@@ -154,7 +154,7 @@ impl Prop for C01 {
         vec!["payloads beyond ~2*(2^24-1)+70000 bytes are not explored".into(), "the recording shim iterates all parameters of every execution".into()]
     }
     fn cases(&self, tier: Tier) -> u64 {
-        tier.pick(6_000, 150_000)
+        tier.pick(20000, 200000)
     }
     fn fuzz_plan(&self, tier: Tier) -> Vec<(&'static str, u64)> {
         if tier == Tier::Thorough {
